@@ -446,11 +446,15 @@ func (m *wireMon) newTSN(X int, p *wirePacket, c *wChunk, ti *tsnInfo) {
 				ti.msg = prev.msg
 			} else {
 				// interleaved fragments: find by (sid, mid, U)
+				// (the nearest earlier one: a re-opened stream uses the same MIDs again)
+				var best *tsnInfo
 				for _, o := range sm.sent {
-					if o.idata && o.sid == c.sid && o.mid == c.mid && o.u == c.unordered && o.msg != nil {
-						ti.msg = o.msg
-						break
+					if o.idata && o.sid == c.sid && o.mid == c.mid && o.u == c.unordered && o.msg != nil && wSNA32LT(o.tsn, c.tsn) && (best == nil || wSNA32LT(best.tsn, o.tsn)) {
+						best = o
 					}
+				}
+				if best != nil {
+					ti.msg = best.msg
 				}
 			}
 		}
